@@ -351,6 +351,10 @@ func runReg(c caseIn) *caseOut {
 				}
 				// eviction must hit an entry with the minimal CreatedAt
 				for k := range before {
+					if !after[k] && k != id && before[id] && c.Kind != "tunnel" {
+						// a ConnID that already has a record is replaced: the count does not grow, nobody else may go
+						out.fail("control-replacement-evicted", fmt.Sprintf("Register(%d) replaced its own record but %d was dropped as well", id, k))
+					}
 					if !after[k] && k != id {
 						for j := range before {
 							if created[j] < created[k] {
